@@ -20,7 +20,8 @@ CONSTANTS
   ParRg,      \* sequence: initial requires_grad of parameter p
   Names,      \* attribute names offered to __setattr__
   MaxSeq,     \* bound on Sequential modules created
-  MaxHist, Record, Acts
+  MaxHist, Record, Acts,
+  InitTree    \* "empty": the containers start empty; "block": container 1 owns parameter 1 ("w") and child container 2 ("fc"), which owns parameter 2 ("w")
 
 VARIABLES mods, prg, pgrad, nseq, last, hist
 vars == <<mods, prg, pgrad, nseq, last, hist>>
@@ -93,8 +94,12 @@ CanAct == Record => Len(hist) < MaxHist
 -----------------------------------------------------------------------------
 Box0 == [kind |-> "box", subs |-> <<>>, pars |-> <<>>, training |-> TRUE, a |-> 0, b |-> 0]
 Init ==
-  /\ mods = [m \in 1..(NMods + NLeaf) |-> IF m <= NMods THEN Box0
-                                           ELSE [Box0 EXCEPT !.kind = "aff", !.a = m - NMods + 1, !.b = m - NMods]]
+  /\ mods = [m \in 1..(NMods + NLeaf) |->
+               IF m <= NMods
+               THEN (IF InitTree = "block" /\ m = 1 THEN [Box0 EXCEPT !.pars = <<<<"w", 1>>>>, !.subs = <<<<"fc", 2>>>>]
+                     ELSE IF InitTree = "block" /\ m = 2 THEN [Box0 EXCEPT !.pars = <<<<"w", 2>>>>]
+                     ELSE Box0)
+               ELSE [Box0 EXCEPT !.kind = "aff", !.a = m - NMods + 1, !.b = m - NMods]]
   /\ prg = ParRg
   /\ pgrad = [p \in Params |-> "none"]
   /\ nseq = 0 /\ last = "" /\ hist = <<>>
